@@ -14,6 +14,7 @@ import MdpaxV.Model.Matrices
 import MdpaxV.Model.Shipped
 import MdpaxV.Model.Probs
 import MdpaxV.Model.Store
+import MdpaxV.Model.Ckpt
 open MdpaxV
 
 /-! parsing / printing -/
@@ -142,10 +143,8 @@ def setDir (d : DState) (k : String) (st : Store (SState Rat)) : DState := { d w
 def fStore (st : Store (SState Rat)) : String :=
   s!"created={st.created} config={st.hasConfig} steps={fList toString st.labels} stepvals={fList2 fRat (st.steps.map (·.2.values))} stepiters={fList toString (st.steps.map (·.2.iter))}"
 
-/-- what `_restore_state_from_checkpoint` leaves in a solver built from the template of a fresh solver:
-    the value-iteration family restores into a template whose policy is `None`, so the stored policy is dropped -/
-def restoredState (kind : Kind) (snap : SState Rat) : SState Rat :=
-  if kind = Kind.pi then snap else { snap with policy := none }
+/-- `Model/Ckpt.lean`: only policy iteration's fresh template holds a policy array -/
+def restoredStateK (kind : Kind) (snap : SState Rat) : SState Rat := restoredState (decide (kind = Kind.pi)) snap
 
 def fErr : RestoreErr → String
   | .fileNotFound => "error=FileNotFoundError"
@@ -285,7 +284,7 @@ def handle (d : DState) (line : String) : Except String (DState × String) := do
           match st.restore step with
           | .error e => pure (d, fErr e)
           | .ok (_, snap) =>
-            let sv : Solver := { sv0 with st := restoredState cfg.kind snap }
+            let sv : Solver := { sv0 with st := restoredStateK cfg.kind snap }
             pure ({ d with solvers := (sid, sv) :: d.solvers.filter (·.1 ≠ sid) }, "ok " ++ fState sv.st false 0 [])
     | "load" => do
         let sid ← arg a "sid"; let dirId ← arg a "dir"
@@ -296,7 +295,7 @@ def handle (d : DState) (line : String) : Except String (DState × String) := do
           match (getDir d dirId).load step with
           | .error e => pure (d, fErr e)
           | .ok (_, snap) =>
-            let sv' := { sv with st := restoredState sv.kind snap }
+            let sv' := { sv with st := restoredStateK sv.kind snap }
             pure ({ d with solvers := (sid, sv') :: d.solvers.filter (·.1 ≠ sid) }, "ok " ++ fState sv'.st false 0 [])
     | "qrow" => do
         let p ← getP d (← arg a "id")
